@@ -137,7 +137,7 @@ def corruptions(conn, lay, rng):
 # ---------------------------------------------------------------------------------------------- the sweep
 def recipes_for(ctx):
     lib = G.LIB_QUICK if ctx.quick else G.LIB_THOROUGH
-    n_rand = 34 if ctx.quick else 460
+    n_rand = 34 if ctx.quick else 1100
     rs = [('lib', n, list(p)) for n, p in lib] + [('selfloop', list(v)) for v in G.SELFLOOPS]
     for i in range(n_rand):
         seed = ctx.seed * 100003 + i
